@@ -81,6 +81,13 @@ def _estimate_system_molecular_weight(molecules, system_molweight):
             return False
         mol.mixture.system_mass = system_weight
 
+    # With the system mass known, every component has a percentage: they have to add up.
+    total_fraction = sum(mol.mixture.relative_mass for mol in molecules)
+    if abs(total_fraction - 100) > 1e-6:
+        raise RuntimeError(
+            f"System described with inconsistent mol weights: fractions add up to {total_fraction} != 100."
+        )
+
     return True
 
 
